@@ -444,3 +444,23 @@ Theorem C14_encrypted_key_seal_open_partial : forall pub_of pt_ok kdf cbcdec cbc
   sm2_p8_open pub_of pt_ok kdf cbcdec pass (e ++ rest) = Ok (d, pub_of d, None, rest).
 Proof. exact sm2_p8_seal_open. Qed.
 Print Assumptions C14_encrypted_key_seal_open_partial.
+
+(* ---- decode determines the WHOLE target object (an SM2_KEY has a private and a public part):
+   a public-key decoder stores the point and the private scalar 0, whatever the target held before *)
+Theorem C14_sm2_public_key_decode_determines_whole_key : forall (pub_of : list N -> list N) pt_ok inp k rest,
+  sm2_pubkey_from_der pt_ok inp = Ok (k, rest) ->
+  k_priv k = zeros 32 /\ len (k_pub k) = 64 /\ pt_ok (4 :: k_pub k) = true.
+Proof. exact sm2_pubkey_from_der_whole. Qed.
+Print Assumptions C14_sm2_public_key_decode_determines_whole_key.
+
+Theorem C14_sm2_public_key_info_roundtrip_whole_key : forall (pub_of : list N -> list N) pt_ok xy e rest,
+  length xy = 64%nat -> pt_ok (4 :: xy) = true -> sm2_pubinfo_to_der xy = Ok e ->
+  sm2_pubkeyinfo_from_der pt_ok (e ++ rest) = Ok ({| k_priv := zeros 32; k_pub := xy |}, rest).
+Proof. exact sm2_pubkeyinfo_roundtrip. Qed.
+Print Assumptions C14_sm2_public_key_info_roundtrip_whole_key.
+
+Theorem C14_sm2_private_key_decode_determines_whole_key : forall pub_of pt_ok inp k rest,
+  sm2_privkey_from_der pub_of pt_ok inp = Ok (k, rest) ->
+  len (k_priv k) = 32 /\ d_ok (k_priv k) = true /\ k_pub k = pub_of (k_priv k) /\ len (k_pub k) = 64.
+Proof. exact sm2_privkey_from_der_whole. Qed.
+Print Assumptions C14_sm2_private_key_decode_determines_whole_key.
